@@ -139,7 +139,7 @@ def run(chk):
                        'distinct by (frame set, chunk sequence)')
     chk.assumptions += ['blosc codec replaced by a shim (marker byte + raw bytes): framing/reassembly verified, codec trusted',
                         'TLC 1.8; transcription of the decompress loop in BloscStream.tla (layer A) — bound by hook traces',
-                        'asdf\'s own block reader is not exercised (asdf 5.4 cannot write blsc blocks: it hands the compressor an ndarray)']
+                        'blsc ASDF files are produced by rewriting the blocks of an uncompressed file with the repository\'s compress (asdf 5.4 cannot write them itself)']
     m1_sets = [(1,), (2,), (1, 1), (1, 3), (3, 1, 2), (5,), (2, 2, 2, 2)]
     m2_sets = [(1,), (3,), (1, 2), (2, 1), (1, 1), (6,)]
     if not chk.quick:
@@ -249,10 +249,67 @@ def run(chk):
         if res['outcome'] == 'ok':
             raise RuntimeError('binding self-test failed: corrupted trace accepted')
         chk.part('binding_selftest', outcome='corrupted trace rejected')
+    # ---- through asdf's own file layer: blsc ASDF files (block rewrite with the repository's compress) opened with asdf.open,
+    # asdf's read block size varied; results compared, and the hook traces (with the chunk lengths asdf really used) validated by TLC
+    import asdf
+    from abacusnbody import _verif_trace
+    from blscfile import write_blsc
+    nfile = 0
+    asdf_groups = {}
+    for rep, (n, dt, cbs) in enumerate([(0, np.uint8, 16), (1, np.int64, 8), (5, np.int32, 8), (9, np.uint16, 6), (40, np.int32, 64), (33, np.uint8, 7), (100, np.float64, 256)][: (5 if chk.quick else 7)]):
+        arr = (rng_np(rng, n)).astype(dt)
+        fn = os.path.join(chk.scratch, f'blsc_{rep}.asdf')
+        frames = write_blsc(fn, {'header': {'k': rep}, 'data': {'x': arr}}, cbs=cbs)[0] if n else write_blsc(fn, {'header': {'k': rep}, 'data': {'x': arr}}, cbs=cbs)
+        frames = frames if n else []
+        for bs in (None, 16, 23, 64, 4096):
+            ev = []
+            with asdf.config_context() as acfg:
+                if bs:
+                    try:
+                        acfg.io_block_size = bs
+                    except Exception:
+                        continue
+                _verif_trace.sink = ev
+                try:
+                    with asdf.open(fn, lazy_load=True, memmap=False) as af:
+                        got = np.array(af['data']['x'][:])
+                    err = None
+                except Exception as e:  # noqa
+                    got, err = None, f'{type(e).__name__}: {e}'
+                finally:
+                    _verif_trace.sink = None
+            nfile += 1
+            if err or got is None or got.dtype != arr.dtype or not np.array_equal(got, arr):
+                chk.violation('asdf-layer-read', f'blsc ASDF file with {n} x {np.dtype(dt).name} (compression block {cbs} bytes) read through asdf.open with io_block_size={bs}: '
+                              + (err or 'array differs from what was written'), dict(n=n, dtype=np.dtype(dt).name, cbs=cbs, io_block_size=bs))
+                continue
+            evs = [e for e in ev if e['event'] == 'blosc_chunk']
+            if frames and evs and sum(e['chunk'] for e in evs) == sum(4 + f for f in frames) and sum(4 + f for f in frames) <= 200:
+                g = asdf_groups.setdefault(tuple(frames), dict(dec=[f - 1 for f in frames], runs=[]))
+                g['runs'].append(dict(chunks=[e['chunk'] for e in evs], events=[{k: e[k] for k in ('size', 'npartial', 'hasbuf', 'pos', 'bytesout')} for e in evs], ret=arr.nbytes))
+    for fr, g in asdf_groups.items():
+        tf = os.path.join(chk.scratch, 'trace_asdf_' + str(len(fr)) + '_' + str(sum(fr)) + '.json')
+        with open(tf, 'w') as f:
+            json.dump(dict(frames=list(fr), dec=g['dec'], runs=g['runs']), f)
+        res = run_tlc(chk, 'BloscTrace', cfg_text=tcfg, env={'TRACE_FILE': tf}, expect_violation=True, timeout=600, workers=4)
+        nval += len(g['runs'])
+        if res['outcome'] != 'ok':
+            v = res.get('violated', [])
+            if 'EndOK' in v:
+                chk.violation('asdf-layer-trace-end-state', f'TLC rejects the decompress run recorded under asdf.open for frames {fr}', dict(frames=list(fr)))
+            else:
+                chk.drift += 1
+                chk.note(f'model-drift C14: asdf-layer hook trace for frames {fr} rejected by {v}')
+    chk.part('asdf_layer', reads=nfile, traced_frame_sets=len(asdf_groups))
+    chk.add_cases(nfile, traces=nfile)
     chk.part('M3', runs_validated=nval, frame_sets=len(groups))
     chk.cov['traces_validated_against_impl'] += nval
     if chk.drift:
         chk.note(f'model-drift C14: {chk.drift} runs whose hook events differ from layer A while results are correct')
+
+
+def rng_np(rng, n):
+    return np.array([rng.randrange(0, 200) for _ in range(n)], dtype=np.int64)
 
 
 def random_chunking(n, rng):
